@@ -239,12 +239,13 @@ class EnumAny:
 
 class Arr:
     """array with per-element values"""
-    __slots__ = ('ty', 'e', 'hull')
+    __slots__ = ('ty', 'e', 'hull', 'name')
 
-    def __init__(self, ty, e):
+    def __init__(self, ty, e, name=None):
         self.ty = ty
         self.e = tuple(e)
         self.hull = None     # cached join of all elements (for reads at an abstract index)
+        self.name = name     # symbolic name of a pristine input array (term engine: sel(name, index))
 
     def __repr__(self):
         if len(self.e) > 6:
